@@ -247,6 +247,10 @@ class FnCheck(Check):
         ctx.inline = set(self.inline)
         ctx.optional_fields = set(self.optional_fields)
         ctx.container_hints = dict(self.container_hints)
+        ctx.stable_fields = tuple('f:' + f for f in getattr(self, 'stable_fields', ()))
+        if ctx.stable_fields:
+            ctx.assumptions.add('frame assumption on unknown callees: they do not assign the members '
+                                + ', '.join(getattr(self, 'stable_fields')))
         ctx.max_paths = self.max_paths
         ctx.float_model = self.float_model
         ctx.exc_attr_nonnull = set(getattr(self, 'exc_attr_nonnull', ()))
@@ -392,7 +396,12 @@ class LemmaCheck(Check):
         raise NotImplementedError
 
     def generate(self, repo: Repo):
-        vcs = [VC(f'{self.id}.{n}', hyps, goal, 'lemma') for n, hyps, goal in self.lemmas()]
+        vcs = []
+        for n, hyps, goal in self.lemmas():
+            vcs.append(VC(f'{self.id}.{n}', hyps, goal, 'lemma'))
+            if hyps:
+                # vacuity guard: the hypotheses of every lemma must be satisfiable together
+                vcs.append(VC(f'{self.id}.{n}.cover', hyps, z3.BoolVal(True), 'cover', expect='sat'))
         return vcs, {'function': None, 'lemmas': len(vcs), 'trusted': list(self.trusted)}
 
 
